@@ -126,6 +126,23 @@ static void dispatch(Ctx& ctx, uint64_t m, const CpuCfg& cfg) {
     switch (w) { case 0: reim_fft(rf, a.as<double>()); rf->function(rf, b.as<double>()); break; case 1: reim_ifft(ri, a.as<double>()); ri->function(ri, b.as<double>()); break;
                  case 2: cplx_fft(cf, a.p); cf->function(cf, b.p); break; case 3: cplx_ifft(ci, a.p); ci->function(ci, b.p); break; }
     if (memcmp(a.p, b.p, 2 * m * 8)) ctx.violation(id, "dispatching entry point differs from the selected kernel");
+    // the same transform with the data held in the buffer that lives inside a table built with num_buffers = 1 (documented use),
+    // then once more in user memory with that table: both must be bit-identical to the result above
+    {
+      std::vector<double> in(2 * m); for (uint64_t i = 0; i < 2 * m; ++i) in[i] = b.as<double>()[i];   // b holds the result; regenerate the input
+      Rng r2(ctx.args.seed + m); for (int ww = 0; ww <= w; ++ww) for (uint64_t i = 0; i < 2 * m; ++i) in[i] = (r2.unit() - 0.5) * 1024;
+      void* t1 = w == 0 ? (void*)new_reim_fft_precomp(m, 1) : w == 1 ? (void*)new_reim_ifft_precomp(m, 1) : w == 2 ? (void*)new_cplx_fft_precomp(m, 1) : (void*)new_cplx_ifft_precomp(m, 1);
+      double* ib = w == 0 ? reim_fft_precomp_get_buffer((REIM_FFT_PRECOMP*)t1, 0) : w == 1 ? reim_ifft_precomp_get_buffer((REIM_IFFT_PRECOMP*)t1, 0)
+                 : w == 2 ? (double*)cplx_fft_precomp_get_buffer((CPLX_FFT_PRECOMP*)t1, 0) : (double*)cplx_ifft_precomp_get_buffer((CPLX_IFFT_PRECOMP*)t1, 0);
+      auto go = [&](double* d) { switch (w) { case 0: reim_fft((REIM_FFT_PRECOMP*)t1, d); break; case 1: reim_ifft((REIM_IFFT_PRECOMP*)t1, d); break; case 2: cplx_fft((CPLX_FFT_PRECOMP*)t1, d); break; default: cplx_ifft((CPLX_IFFT_PRECOMP*)t1, d); } };
+      memcpy(ib, in.data(), 2 * m * 8);
+      go(ib);
+      if (memcmp(ib, a.p, 2 * m * 8)) ctx.violation(id, sfmt("transform %d computed inside the table's own buffer differs from the transform in user memory", w));
+      GBuf u2(2 * m * 8, 8); memcpy(u2.p, in.data(), 2 * m * 8);
+      go(u2.as<double>());
+      if (memcmp(u2.p, a.p, 2 * m * 8)) ctx.violation(id, sfmt("transform %d in user memory differs after the table's own buffer was used (the buffer overlaps the tables?)", w));
+      free(t1);
+    }
   }
   free(rf); free(ri); free(cf); free(ci);
   set_cfg(CFG_NATIVE);
